@@ -5,6 +5,7 @@ import (
 	"bytes"
 	"fmt"
 	"io"
+	"os"
 	"runtime"
 	"strings"
 	"sync"
@@ -701,4 +702,51 @@ func TestC07(t *testing.T) {
 		}
 		return nil
 	})
+	// a source that can seek (a file, a bytes.Reader, a section of one) handed over at an offset other than zero:
+	// the header starts where the source stands, and the payload is what follows that header
+	type seekCase struct {
+		H    refage.Header `json:"h"`
+		Pre  int           `json:"pre"`
+		Tail int           `json:"tail"`
+		Kind string        `json:"kind"`
+	}
+	pbt.Rapid(s, "seekable-source-at-offset", s.N(1500, 10000), func(t *rapid.T) seekCase {
+		return seekCase{H: genHeader(t, 3), Pre: rapid.SampledFrom([]int{0, 1, 7, 100, 5000}).Draw(t, "pre"), Tail: rapid.SampledFrom([]int{0, 1, 100, 4096, 10000}).Draw(t, "tail"), Kind: rapid.SampledFrom([]string{"bytes.Reader", "strings.Reader", "os.File", "io.SectionReader"}).Draw(t, "kind")}
+	}, func(c seekCase) error {
+		tail := hx.PRG(11, c.Tail)
+		in := append(append(hx.PRG(12, c.Pre), c.H.Marshal()...), tail...)
+		var src io.Reader
+		switch c.Kind {
+		case "bytes.Reader":
+			src = bytes.NewReader(in)
+		case "strings.Reader":
+			src = strings.NewReader(string(in))
+		case "io.SectionReader":
+			src = io.NewSectionReader(bytes.NewReader(in), 0, int64(len(in)))
+		default:
+			f, err := os.CreateTemp(".", "c07s-")
+			if err != nil {
+				return pbt.Failf("C07/harness", "%v", err)
+			}
+			defer os.Remove(f.Name())
+			defer f.Close()
+			f.Write(in)
+			f.Seek(0, io.SeekStart)
+			src = f
+		}
+		if _, err := io.ReadFull(src, make([]byte, c.Pre)); err != nil {
+			return pbt.Failf("C07/harness", "%v", err)
+		}
+		s.St.Case(c.Pre > 0, stats.HashJSON(c), "seekable-at-offset:"+c.Kind)
+		_, payload, err := format.Parse(src)
+		if err != nil {
+			return pbt.Failf("C07/wellformed-rejected", "Parse of a valid header from a %s standing at offset %d failed: %v", c.Kind, c.Pre, err)
+		}
+		rest, _ := io.ReadAll(payload)
+		if !bytes.Equal(rest, tail) {
+			return pbt.Failf("C07/payload-not-remainder", "Parse from a %s standing at offset %d: the payload has %d bytes (first difference at %d), the remainder after the header has %d", c.Kind, c.Pre, len(rest), firstDiff(rest, tail), len(tail))
+		}
+		return nil
+	})
+
 }
